@@ -490,6 +490,7 @@ package kcp
 //
 //@ func newFECDecoder
 //@   ensures result != nil ==> fresh(result) && result.wf() && result.dataShards == dataShards && result.parityShards == parityShards
+//@   ensures dataShards > 0 && parityShards > 0 && dataShards + parityShards <= 256 ==> result != nil
 //
 //@ func fecDecoder.getShardId inline
 //
@@ -583,3 +584,63 @@ package kcp
 //@   loop 3 invariant (forall k int :: 0 <= k && k < len(enc.shardCache) ==> cap(enc.shardCache[k]) == 1500)
 //@   loop 3 invariant ref(ps) == ref(enc.shardCache) && off(ps) == off(enc.shardCache) + enc.dataShards && len(ps) == enc.parityShards
 //@   loop 3 invariant forall j int :: 0 <= j && j <= rangeindex ==> len(ps[j]) == enc.maxSize
+
+// ===================================================================================
+// crypt.go — interface-level contracts (behavioural subtyping; the implementations are C08)
+// ===================================================================================
+//
+//@ func BlockCrypt.Decrypt
+//@   requires !typeis(self, ptr_aeadCrypt) && len(dst) >= len(src)
+//@   modifies dst[..]
+//@ func BlockCrypt.Encrypt
+//@   requires !typeis(self, ptr_aeadCrypt) && len(dst) >= len(src)
+//@   modifies dst[..]
+//@ func aeadCrypt.Open inline
+//@ func aeadCrypt.NonceSize inline
+//@ func aeadCrypt.Overhead inline
+//@ func aeadCrypt.Seal inline
+
+// ===================================================================================
+// sess.go
+// ===================================================================================
+//
+//@ immutable UDPSession.conn UDPSession.ownConn UDPSession.kcp UDPSession.l UDPSession.block UDPSession.remote
+//@ immutable UDPSession.headerSize UDPSession.fecEncoder UDPSession.die UDPSession.chReadEvent UDPSession.chWriteEvent
+//@ immutable UDPSession.chSocketReadError UDPSession.chSocketWriteError UDPSession.chPostProcessing
+//@ immutable KCP.conv KCP.output KCP.snd_queue KCP.snd_buf KCP.rcv_queue KCP.rcv_buf
+//@ immutable Listener.block Listener.dataShards Listener.parityShards Listener.conn Listener.ownConn Listener.chAccepts
+//@ immutable Listener.die Listener.chSocketReadError Listener.sessions
+//@ immutable fecEncoder.dataShards fecEncoder.parityShards fecEncoder.shardSize fecEncoder.paws fecEncoder.headerOffset
+//@ immutable fecEncoder.payloadOffset fecEncoder.codec fecEncoder.shardCache fecEncoder.encodeCache
+//@ immutable aeadCrypt.aead
+//@ constructor newUDPSession NewKCP serveConn newFECEncoder NewAEADCrypt NewAESGCMCrypt
+//
+// The integrity gate (C06): what must be known about a payload before it may reach the FEC/KCP layers.
+//@ pred gate(b BlockCrypt, d []byte) = b == nil || (typeis(b, ptr_aeadCrypt) ? aeadok(d) : le32(d, 0 - 4) == crcof(d))
+//
+// Immutable facts and the monitor invariant of a session.
+//@ pred (s *UDPSession) imm() = s.kcp != nil && s.chPostProcessing != nil && 0 <= s.headerSize && s.headerSize <= 36
+//@      && (s.fecEncoder != nil ==> s.headerSize == s.fecEncoder.payloadOffset + 2)
+//@      && (typeis(s.block, ptr_aeadCrypt) ==> unboxptr(s.block, aeadCrypt) != nil && unboxptr(s.block, aeadCrypt).aead != nil)
+//@ pred (s *UDPSession) inv() = s.kcp.wf() && (s.fecDecoder != nil ==> s.fecDecoder.wf())
+//@ monitor UDPSession.mu self.inv()
+//
+// Values kept in atomic.Value fields.
+//@ callback atomic:UDPSession.callbackForOOB
+//@   requires typeis(v, OOBCallBackType) && ifaceval(v) != 0
+//
+//@ func UDPSession.notifyReadEvent
+//@   modifies nothing
+//@ func UDPSession.notifyWriteEvent
+//@   modifies nothing
+//
+//@ func UDPSession.kcpInput counted
+//@   requires s.imm() && 12 <= len(data) && len(data) <= 1500
+//@   requires @C06 [integrity-gate] gate(s.block, data)
+//@   modifies everything
+//@   loop 1 invariant s.inv() && kcpInErrors >= 0
+//
+//@ func UDPSession.packetInput
+//@   requires s.imm() && len(data) <= 1500
+//@   modifies everything
+//@   ensures @C06 [rejected-packet-has-no-effect] calls(UDPSession.kcpInput, s) == old(calls(UDPSession.kcpInput, s)) ==> sameheap(KCP, RingBuffer, segmentHeap, fecDecoder, shardHeap, UDPSession, allelems, allmaps)
